@@ -904,6 +904,58 @@ def c06_7(ck, prog):
     r.note('%d count-indexed stores examined' % n)
 
 
+def c06_9(ck, prog):
+    r = ck.rule('C06.9', 'rule order and currency: every insertion into a rule list in policy.c keeps file order '
+                '(append only), and a reload installs the new policy before the live connections\' client '
+                'policies are rebuilt from it', 'TAB',
+                breaks='"the last matching rule decides" is evaluated on a reversed list (rules from included '
+                       'files), or connections stay one reload behind the configuration', floor=8)
+    P = 'bus/policy.c'
+    n = 0
+    for f in lib.prod_funcs(prog, {P}):
+        for b, i, c in f.calls():
+            cal = c.get('callee') or ''
+            if not cal.startswith('_dbus_list_') or not any(w in cal for w in ('append', 'prepend', 'insert')):
+                continue
+            n += 1
+            key = '%s:%s' % (f.name, cal)
+            if cal in ('_dbus_list_append', '_dbus_list_append_link'):
+                r.ok(key, {'site': '%s:%d' % (P, c['line'])})
+            else:
+                r.violation(key, f.name, P, c['line'], '%s inserts a policy rule with %s: rule lists are ordered by '
+                            'position in the configuration and must only be appended to' % (f.name, cal))
+    if n < 6:
+        raise AnalysisBroken('only %d rule-list insertions found in policy.c' % n)
+    # reload: install, then rebuild
+    fn = prog.fn('process_config_every_time', 'bus/bus.c')
+    seen = [0]
+
+    def on_event(user, ev, ctx):
+        for lhs, how, rhs in written_lvalues(ev):
+            if is_member(lhs, 'policy', 'BusContext') and how == '=' and is_call(rhs or {}, 'bus_config_parser_steal_policy'):
+                return True
+        if ev['ev'] == 'call' and ev['e'].get('callee') == 'bus_connections_reload_policy':
+            seen[0] += 1
+            if not user:
+                ctx.report('client policies of live connections are rebuilt before the new policy was installed in '
+                           'the context (they are rebuilt from the previous rule list)', ev['line'], key='stale')
+        return user
+    ex = Explorer(fn, init=False, on_event=on_event, track=None, cap=400000).run()
+    if not seen[0]:
+        raise AnalysisBroken('process_config_every_time no longer reloads connection policies')
+    if ex.reports:
+        r.from_reports(ex.reports, keyfn=lambda k, rep: 'reload:%s' % k)
+    else:
+        r.ok('reload:new-policy-installed-before-rebuild')
+    # and the rebuild reads the context's current policy
+    rp = prog.fn('bus_connections_reload_policy', 'bus/connection.c')
+    if rp.calls('bus_context_create_client_policy'):
+        r.ok('reload:rebuild-from-context-policy')
+    else:
+        r.violation('reload:rebuild-from-context-policy', rp.name, rp.file, rp.line,
+                    'bus_connections_reload_policy no longer rebuilds client policies through the context')
+
+
 def run(ck):
     ck.explanation = (
         'Static rules over bus/policy.c, bus/bus.c, bus/config-parser.c, bus/services.c, bus/activation.c: the '
@@ -926,6 +978,7 @@ def run(ck):
         c06_6b(ck, prog)
         c06_6c(ck, prog)
         c06_7(ck, prog)
+        c06_9(ck, prog)
         # "requested reply" is what the policy's requested_reply qualifiers are evaluated against
         from rules.C09 import c09_2
         r8 = ck.rule('C06.8', 'a message is classified as a requested reply only when serial, receiver and sender '
